@@ -446,6 +446,9 @@ class Interp:
                 dc_deco = d
         if is_enum:
             return self._make_enum(node, env, bases, decos)
+        import typing as _typing
+        if any(b is _typing.NamedTuple for b in bases):
+            return self._make_namedtuple(node, env)
         ns = {}
         fields = []
         cenv = Env(env.globals, _ChainDict(ns, env.vars), None)
@@ -493,6 +496,34 @@ class Interp:
             if text.startswith(('dc.dataclass', 'dataclasses.dataclass', 'dataclass')):
                 continue
             cls = self.eval(d, env)(cls) or cls
+        return cls
+
+    def _make_namedtuple(self, node, env):
+        """`class X(typing.NamedTuple)`: annotated fields (with optional defaults), interpreted methods / properties."""
+        import collections as _collections
+        names, defaults = [], []
+        ns = {}
+        holder = []
+        cenv = Env(env.globals, _ChainDict(ns, env.vars), None)
+        for st in node.body:
+            if isinstance(st, ast.AnnAssign) and isinstance(st.target, ast.Name):
+                names.append(st.target.id)
+                if st.value is not None:
+                    defaults.append(self.eval(st.value, cenv))
+                elif defaults:
+                    raise Unsupported(f'NamedTuple {node.name}: field without default after a field with default')
+            elif isinstance(st, (ast.FunctionDef, ast.AsyncFunctionDef)):
+                f = self.make_function(st, Env(env.globals, env.vars if env.vars is not env.globals else env.globals), deco_env=cenv)
+                _set_defcls(f, holder)
+                ns[st.name] = f
+            elif isinstance(st, ast.Expr) and isinstance(st.value, ast.Constant) or isinstance(st, ast.Pass):
+                continue
+            else:
+                self.exec_stmt(st, cenv)
+        base = _collections.namedtuple(node.name, names, defaults=defaults or None)
+        ns.setdefault('__slots__', ())
+        cls = type(node.name, (base,), ns)
+        holder.append(cls)
         return cls
 
     def _make_enum(self, node, env, bases, decos):
